@@ -165,6 +165,25 @@ func c18Board(r *kit.Run, rec *world.Recording, tier string, classes map[string]
 						r.Violation("C18/panic/board/"+pe.Site, fmt.Sprintf("ProcessMessage panicked (in %s) in state %s on %s with %s: %v", pe.Site, bs, g.Event, mu.Label, pe.V), trace)
 						continue
 					}
+					if err == nil {
+						// the mutant was accepted: whatever it left in the round, the genuine
+						// messages that follow on the board must not crash the node either
+						cur, fed := after, 0
+						for f := j + 1; f < len(rec.Log) && fed < 2*w.N+2; f++ {
+							if !addressed(rec, v, rec.Log[f]) {
+								continue
+							}
+							fed++
+							ferr, fafter, _ := lab.Step(cur, rec.Log[f])
+							*evals++
+							if pe, ok := ferr.(*PanicError); ok {
+								tr := map[string]interface{}{"entry": "NodeService.ProcessMessage", "base": bs.String(), "first": fmt.Sprintf("%s (offset %d) with %s, accepted", g.Event, j, mu.Label), "then": fmt.Sprintf("genuine %s of %s (offset %d)", rec.Log[f].Event, rec.Log[f].SenderAddr, f)}
+								r.Violation("C18/panic/board-followup/"+pe.Site, fmt.Sprintf("after %s with %s was accepted in %s, the genuine %s of %s (offset %d) panicked ProcessMessage (in %s): %v", g.Event, mu.Label, bs, rec.Log[f].Event, rec.Log[f].SenderAddr, f, pe.Site, pe.V), tr)
+								break
+							}
+							cur = fafter
+						}
+					}
 					if err != nil {
 						ch := changedProtected(bs.Snap, after)
 						if len(ch) > 0 {
